@@ -402,10 +402,51 @@ func ruleOncePerNode(c *Check, rule string, w *walkerInfo) {
 		key := "spawn-per-selected-node/" + c.P.FuncName(g.Parent())
 		lp := engine.LoopOf(g)
 		okLoop := lp != nil && lp.IsFullRange() && len(engine.LoopsContaining(g)) == 1
-		okSel, _ := engine.PathExists(g.Parent(), nil, engine.IsInstr(g), engine.PathQuery{CutEdge: engine.CutEdgesWhere(func(a engine.Atom) bool {
-			call, _ := engine.CallOf(a.V)
-			return a.Op == "true" && call != nil && call.Common().IsInvoke() && call.Common().Method.Name() == "GetIsSelected"
-		})})
+		okSel := !spawnOnlyForSelected(g.Parent(), g)
 		c.Require(okLoop && !okSel, rule, key, "one routine is spawned per element of a single full range over the nodes, under the GetIsSelected() branch", fmt.Sprintf("routine spawn is not once-per-selected-node (single full range: %v, guarded by GetIsSelected: %v)", okLoop, !okSel), c.P.InstrPos(g))
 	}
+}
+
+func isSelectedTrue(a engine.Atom) bool {
+	call, _ := engine.CallOf(a.V)
+	return a.Op == "true" && call != nil && call.Common().IsInvoke() && call.Common().Method.Name() == "GetIsSelected"
+}
+
+// spawnOnlyForSelected: the instruction is reachable only under GetIsSelected(),
+// or only after a successful lookup in a local map that is filled exclusively
+// under GetIsSelected() (the set of registered nodes).
+func spawnOnlyForSelected(fn *ssa.Function, at ssa.Instruction) bool {
+	if r, _ := engine.PathExists(fn, nil, engine.IsInstr(at), engine.PathQuery{CutEdge: engine.CutEdgesWhere(isSelectedTrue)}); !r {
+		return true
+	}
+	registered := func(a engine.Atom) bool {
+		if a.Op != "true" {
+			return false
+		}
+		ex, ok := a.V.(*ssa.Extract)
+		if !ok || ex.Index != 1 {
+			return false
+		}
+		lk, ok := ex.Tuple.(*ssa.Lookup)
+		if !ok || !lk.CommaOk {
+			return false
+		}
+		// every update of that map happens under GetIsSelected()
+		n := 0
+		for _, b := range fn.Blocks {
+			for _, in := range b.Instrs {
+				mu, ok := in.(*ssa.MapUpdate)
+				if !ok || !(sameVar(mu.Map, lk.X) || mu.Map == lk.X) {
+					continue
+				}
+				n++
+				if r, _ := engine.PathExists(fn, nil, engine.IsInstr(mu), engine.PathQuery{CutEdge: engine.CutEdgesWhere(isSelectedTrue)}); r {
+					return false
+				}
+			}
+		}
+		return n > 0
+	}
+	r, _ := engine.PathExists(fn, nil, engine.IsInstr(at), engine.PathQuery{CutEdge: engine.CutEdgesWhere(func(a engine.Atom) bool { return isSelectedTrue(a) || registered(a) })})
+	return !r
 }
